@@ -46,7 +46,8 @@
 (*    pblock    the P-Code block (terms of Pcode.tla)                      *)
 (*    irblock   the lifted block (terms of IR.tla)                         *)
 (*    panic     message if the lifter panicked ("" otherwise)              *)
-(*    inits     sequence of initial register files: seq of [n, v]]         *)
+(*    inits     sequence of initial register files: each a function (JSON  *)
+(*              object) base register name -> bit vector]                  *)
 (* plus fields that are only reported (raw extractor JSON for the replay,  *)
 (* feature tags).                                                          *)
 (*                                                                         *)
@@ -70,10 +71,16 @@ PEnv(c, i) == [seed |-> (Cases[c].seed + 37 * i) % 65521, le |-> Cases[c].le, pt
 IEnv(c, i) == [seed |-> (Cases[c].seed + 37 * i) % 65521, le |-> Cases[c].le, sp |-> Cases[c].sp,
                physregs |-> Cases[c].physregs]
 
+\* Both machines start in the same state: no observation, no byte of memory written, the register
+\* file of the case (a function base register name -> bit vector that the harness sends as a JSON
+\* object, so it is used as it is instead of being rebuilt by the Start operators).
+PStart(c, i) == [Pcode!Start(Cases[c].pblock.tid, <<>>) EXCEPT !.regs = Cases[c].inits[i]]
+IStart(c, i) == [IR!Start(Cases[c].irblock.tid, <<>>, IEnv(c, i)) EXCEPT !.regs = Cases[c].inits[i]]
+
 Init == \E c \in 1..Len(Cases) : \E i \in 1..Len(Cases[c].inits) :
           /\ cs = c /\ ini = i /\ ph = "run" /\ pi = 0 /\ ii = 0
-          /\ pm = Pcode!Start(Cases[c].pblock.tid, Cases[c].inits[i])
-          /\ im = IR!Start(Cases[c].irblock.tid, Cases[c].inits[i], IEnv(c, i))
+          /\ pm = PStart(c, i)
+          /\ im = IStart(c, i)
 
 (***************************************************************************)
 (* Agreement                                                               *)
@@ -136,7 +143,7 @@ Agree == NoPanic /\ RegsAgree /\ ObsAgree
 
 \* the small steps compute what the block operators compute
 BigStep == (ph = "done") =>
-             pm = Pcode!RunBlock(Cases[cs].pblock, Pcode!Start(Cases[cs].pblock.tid, Cases[cs].inits[ini]), PEnv(cs, ini))
+             pm = Pcode!RunBlock(Cases[cs].pblock, PStart(cs, ini), PEnv(cs, ini))
 
 (***************************************************************************)
 (* Steps                                                                   *)
